@@ -437,6 +437,15 @@ func (c *aCase) stepWorker(w *aWorker) bool {
 		}
 		in := w.op.inner()
 		ch, off := c.or.got(w.id, w.op, w.res)
+		if w.res != nil && len(w.res) == 0 {
+			// an empty slice at the very end of a chunk has the address of the first byte of an
+			// adjacent chunk: resolve it inside the chunk the observation point named
+			bs, ls := c.a.VerifChunkBases(), c.a.VerifChunkLens()
+			p := uintptr(unsafe.Pointer(unsafe.SliceData(w.res)))
+			if k := int(o.a); k < len(bs) && p >= bs[k] && p <= bs[k]+uintptr(ls[k]) {
+				ch, off = k, int(p-bs[k])
+			}
+		}
 		base := uint64(0)
 		if bs := c.a.VerifChunkBases(); int(o.a) < len(bs) {
 			base = uint64(bs[o.a]) % 8 // only the alignment of the chunk matters
